@@ -13,7 +13,7 @@
   `assert`s: a function whose C body contains (or reaches) an `assert` returns `Option`; `none` is
   `abort()`.  "Never aborts" is therefore a theorem `(f …).isSome`.  The arithmetic behind the
   assertion of `rounded_udiv_128_by_48` is `udivCore`, so that its correctness can be stated for the
-  closed range `0 < div ≤ 2^48` although the assertion admits only `div < 2^48`.
+  closed range `0 < div ≤ 2^48` independently of the assertion (`div <= 2^48` since the repair of defect A).
 
   Signed negations that are undefined behaviour in C for `INT32_MIN`/`INT64_MIN` are modelled as the
   two's complement wrap the compiled library performs (`negS32`).
@@ -116,8 +116,8 @@ def udivCore (hi lo div : Int) : Int × Int :=
     if resultLo = 0 then (resultLo, wrapU64 (resultHi + 1)) else (resultLo, resultHi)
   else (resultLo, resultHi)
 
-/-- `assert(div < ((uint64_t)1 << 48))` -/
-def udivAssert (div : Int) : Bool := div < 281474976710656
+/-- `assert(div <= ((uint64_t)1 << 48))` -/
+def udivAssert (div : Int) : Bool := div ≤ 281474976710656
 
 /-- `rounded_udiv_128_by_48 (hi, lo, div, &result_hi)`: `none` = the assertion failed (abort). -/
 def roundedUdiv128By48 (hi lo div : Int) : Option (Int × Int) :=
@@ -313,9 +313,11 @@ def initTranslate (tx ty : Int) : Transform := ⟨fixed1, 0, tx, 0, fixed1, ty, 
 /-- `fixed_inverse`: C division truncates towards zero, the cast to `pixman_fixed_t` wraps -/
 def fixedInverse (x : Int) : Int := wrapS32 (Int.tdiv 4294967296 x)
 
-/-- shared shape of scale/rotate/translate: `forward := tf * forward`, `reverse := reverse * tr`;
-    either pointer may be NULL (`none`).  Returns `(return value, *forward, *reverse)` afterwards. -/
-def applyPair (forward reverse : Option Transform) (tf tr : Transform) :
+/-- shared shape of scale/rotate/translate: `forward := tf * forward`; then, inside `if (reverse)`,
+    the operand check (`revOk = false`: return FALSE — `forward` has already been stored) and
+    `reverse := reverse * tr`.  Either pointer may be NULL (`none`).
+    Returns `(return value, *forward, *reverse)` afterwards. -/
+def applyPair (forward reverse : Option Transform) (tf : Transform) (revOk : Bool) (tr : Transform) :
     Bool × Option Transform × Option Transform :=
   match forward with
   | some f =>
@@ -324,6 +326,7 @@ def applyPair (forward reverse : Option Transform) (tf tr : Transform) :
     | some f' =>
       match reverse with
       | some r =>
+        if !revOk then (false, some f', reverse) else
         match multiply r tr with
         | none => (false, some f', reverse)
         | some r' => (true, some f', some r')
@@ -331,23 +334,32 @@ def applyPair (forward reverse : Option Transform) (tf tr : Transform) :
   | none =>
     match reverse with
     | some r =>
+      if !revOk then (false, none, reverse) else
       match multiply r tr with
       | none => (false, none, reverse)
       | some r' => (true, none, some r')
     | none => (true, none, none)
 
+/-- `(sx >= -1 && sx <= 2) || (sy >= -1 && sy <= 2)`: the reciprocal of one factor does not fit 16.16 -/
+def scaleInverseOverflows (sx sy : Int) : Bool :=
+  (decide (sx ≥ -1) && decide (sx ≤ 2)) || (decide (sy ≥ -1) && decide (sy ≤ 2))
+
 /-- `pixman_transform_scale (forward, reverse, sx, sy)` -/
 def scale (forward reverse : Option Transform) (sx sy : Int) : Bool × Option Transform × Option Transform :=
   if sx = 0 ∨ sy = 0 then (false, forward, reverse)
-  else applyPair forward reverse (initScale sx sy) (initScale (fixedInverse sx) (fixedInverse sy))
+  else applyPair forward reverse (initScale sx sy) (!scaleInverseOverflows sx sy)
+         (initScale (fixedInverse sx) (fixedInverse sy))
 
-/-- `pixman_transform_rotate (forward, reverse, c, s)` -/
+/-- `pixman_transform_rotate (forward, reverse, c, s)`; `s == INT32_MIN` is refused up front (both
+    rotation matrices contain `-s`) -/
 def rotate (forward reverse : Option Transform) (c s : Int) : Bool × Option Transform × Option Transform :=
-  applyPair forward reverse (initRotate c s) (initRotate c (negS32 s))
+  if s = -2147483648 then (false, forward, reverse)
+  else applyPair forward reverse (initRotate c s) true (initRotate c (negS32 s))
 
-/-- `pixman_transform_translate (forward, reverse, tx, ty)` -/
+/-- `pixman_transform_translate (forward, reverse, tx, ty)`; the reverse block refuses `INT32_MIN` -/
 def translate (forward reverse : Option Transform) (tx ty : Int) : Bool × Option Transform × Option Transform :=
-  applyPair forward reverse (initTranslate tx ty) (initTranslate (negS32 tx) (negS32 ty))
+  applyPair forward reverse (initTranslate tx ty) (decide (tx ≠ -2147483648) && decide (ty ≠ -2147483648))
+    (initTranslate (negS32 tx) (negS32 ty))
 
 /-! ### pixman_transform_bounds -/
 
@@ -355,15 +367,21 @@ def translate (forward reverse : Option Transform) (tx ty : Int) : Bool × Optio
 def intToFixed (i : Int) : Int := wrapS32 (i * 65536)
 /-- `pixman_fixed_to_int` -/
 def fixedToInt (f : Int) : Int := f / 65536
-/-- `pixman_fixed_ceil` (the addition wraps in `int32_t`) -/
-def fixedCeil (f : Int) : Int := (wrapS32 (f + 65535)) / 65536 * 65536
+/-- `pixman_fixed_frac` -/
+def fixedFrac (f : Int) : Int := f % 65536
 
-/-- one iteration of the corner loop on the box under construction -/
+/-- `x1 + (pixman_fixed_frac (v) != 0)`: the ceiling as an integer, without `pixman_fixed_ceil` -/
+def ceilInt (f : Int) : Int := fixedToInt f + (if fixedFrac f ≠ 0 then 1 else 0)
+
+/-- `x2 > INT16_MAX || y2 > INT16_MAX` -/
+def upperEdgeOverflows (p : Vec) : Bool := decide (ceilInt p.x > 32767) || decide (ceilInt p.y > 32767)
+
+/-- one iteration of the corner loop on the box under construction (after the overflow test) -/
 def boundsStep (first : Bool) (b : Box16) (p : Vec) : Box16 :=
   let x1 := fixedToInt p.x
   let y1 := fixedToInt p.y
-  let x2 := fixedToInt (fixedCeil p.x)
-  let y2 := fixedToInt (fixedCeil p.y)
+  let x2 := ceilInt p.x
+  let y2 := ceilInt p.y
   if first then ⟨wrapS16 x1, wrapS16 y1, wrapS16 x2, wrapS16 y2⟩
   else
     ⟨if x1 < b.x1 then wrapS16 x1 else b.x1, if y1 < b.y1 then wrapS16 y1 else b.y1,
@@ -376,7 +394,9 @@ def boundsLoop (t : Transform) (first : Bool) (b : Box16) : List Vec → Option 
     match transformPoint t c with
     | none => none
     | some (false, _) => some (false, b)
-    | some (true, p) => boundsLoop t false (boundsStep first b p) rest
+    | some (true, p) =>
+      if upperEdgeOverflows p then some (false, b)
+      else boundsLoop t false (boundsStep first b p) rest
 
 /-- the four corners in the order of the C code -/
 def corners (b : Box16) : List Vec :=
